@@ -29,6 +29,10 @@ CHECKS = {
    technique="explicit-state BFS (E2) over the lattice of subsetting-option sets through the real driver (state = option set, transitions executed in path order, merged orders must have printed the same output), plus bounded exhaustive enumeration (E1) of option combinations on the Data API, against the reference selection model",
    text="Two inputs (+ climatology) in mutually different orders with different coverage, 6 init times over 2 days at 00/06/12 UTC, 3 lead times, 4 stations with distinct id/lat/lon/elev. E1: each of -t -d -tod -o -l -lx -latrange -lonrange -elevrange in {absent, strict subset, end points equal to a station's coordinate / partially matching, matches nothing} plus -obsrange, dev(3) in quick and the full 4^9 product in thorough, on verif.data.Data: selected times/lead times/locations and every request compared with the reference; empty selections must be rejected or give no finite number. E2: BFS from the empty command line, event = add one option; every transition runs the driver (--list-times/--list-locations, -m mae csv, -m fcst -x leadtime csv) and is compared with the reference; option sets up to size 3 (thorough 4).",
    note="trusts: mc/ref/dataset.py selection semantics (appendix B steps 1-3, 6); whole-hour init times; repeated flags excluded"),
+ "C04": dict(level="exploration", design="5/C04",
+   technique="bounded exhaustive enumeration (E1) of every (input, field, cell, missing-value encoding) deviation and pairs of cells through the real text / NetCDF readers, against the reference dataset model, a metamorphic canonical-form oracle over all metrics, and a request-recording proxy that decides which slices must be NaN",
+   text="2 inputs x 11 fields (obs fcst pit cdf quantile ensemble other) x 8 cells x every encoding (text: -999, -999.0, nan, NA, na, '.', absent row; NetCDF: NaN, -999, default-fill mask, explicit _FillValue that is an ordinary number, 1e31): all single deviations, all pairs over a field subset, plus whole slice / whole field / whole input missing. Each execution compares 13 request sets x 4 axes with the reference model, requires all ~70 metrics x 3 axes x 2 inputs to equal their value on the canonical in-memory dataset (field missing in every input), and requires NaN wherever one of the metric's own requests (recorded by a transparent proxy) has no valid case.",
+   note="trusts: mc/ref/dataset.py; metric formulas are decided by C05/C06/C08; inf/1e31 tokens in text files are outside the documented text encodings"),
 }
 
 def main():
